@@ -46,4 +46,27 @@ BondSliceNext ==
         \/ \E t \in Targets : HasBase(t) /\ Active(t) /\ Disqualify(t)
         \/ \E p \in Periods : EndBlock(p)
 BondSliceSpec == Init /\ [][BondSliceNext]_vars
+
+(* Coinciding timers: every account stakes, then only bonds to external P-Reps, unbonding, stake
+   decreases (unstakes) and block ends.  With the lock period equal to the unbonding period an unstake
+   and an unbond created in the same block expire at exactly the same height, for one account or
+   for two different ones.  EmitCoin prints only behaviours in which an unbonding and an unstaking
+   timer fired at the same height and at least one more block followed (so that the replay observes
+   the state after that height). *)
+AllStaked == \A x \in Accts : stake[x] > 0
+CoinNext ==
+        \* block 0: every account stakes everything and may bond part of it to an external P-Rep
+        \/ \E a \in Accts : h = 0 /\ stake[a] = 0 /\ SetStake(a, MaxAmt)
+        \/ \E a \in Accts, b \in Vecs :
+              /\ h = 0 /\ AllStaked /\ bond[a] = ZeroVec /\ b # ZeroVec /\ (\A t \in Accts : b[t] = 0) = TRUE
+              /\ SetBond(a, b)
+        \* blocks 1 and 2: only decreases - of bonds (unbonding starts) and of stakes (unstaking starts)
+        \/ \E a \in Accts, b \in Vecs :
+              /\ h \in {1, 2} /\ b # bond[a] /\ (\A t \in Targets : b[t] <= bond[a][t]) = TRUE
+              /\ SetBond(a, b)
+        \/ \E a \in Accts, v \in 0..MaxAmt : h \in {1, 2} /\ v < stake[a] /\ v >= Using(a) /\ SetStake(a, v)
+        \/ \E p \in Periods : AllStaked /\ EndBlock(p)
+CoinSpec == Init /\ [][CoinNext]_vars
+CoinSeen == \E i \in 1..(Len(hist) - 1) : hist[i].op = "end" /\ hist[i].coin.any
+EmitCoin == (Len(hist) = Depth /\ hist[Len(hist)].op = "end" /\ CoinSeen) => PrintT(<<"B", ToJson(hist)>>)
 ====
